@@ -122,6 +122,13 @@ for H in (2, 3):
             u_nom.copy_(env.vec('u_nom_b', H).reshape(1, H, 1))
             xb, ub, costb = solver(x0b, 1, u_nom)
             check('second solve, nominal inputs rewritten in place: ', x0b, xb, ub, costb)
+            # the two halves called separately (the functional form): whatever the system clock shows between them, the roll-out of
+            # lqr_forward starts at the beginning of the horizon
+            x0c = env.vec('x_init_c', 1).reshape(1, 1)
+            Kc, kc = solver.lqr_backward(x0c, 1, u_nom)
+            system.systime = (stale + 1) if env.sym else int(stale) + 1
+            xc, uc, costc = solver.lqr_forward(x0c, Kc, kc)
+            check('lqr_backward, clock moved, lqr_forward: ', x0c, xc, uc, costc)
             env.safe('defined', x, u, cost)
     mk()
 
